@@ -93,7 +93,9 @@ type c07gen struct {
 }
 
 func (g *c07gen) scalar() string {
-	return sx.Pick(g.rng, []string{"v1", "v2", "x y", "1", "true", "null", "0x10", "1.5", "~", "\"q\"", "2002-08-15", "18446744073709551615"})
+	return sx.Pick(g.rng, []string{"v1", "v2", "x y", "1", "true", "null", "0x10", "1.5", "~", "\"q\"", "2002-08-15", "18446744073709551615",
+		// explicitly tagged scalars, also in quoted style: the tag decides, not the quotes
+		"!!int \"0x10\"", "!!float '1.5'", "!!bool \"true\"", "!!str 123", "!!str true", "!!null \"\"", "!!int 7", "'quoted'", "\"12\""})
 }
 
 func (g *c07gen) key(i int) string {
